@@ -12,10 +12,10 @@ CLAIMS = {
         "(quick: ~1,300 years in windows incl. both ends, the reform, century years; thorough: all 3.9 M days "
         "-4712..6000) and checks the Meeus date->JD and JD->date recipes, month-length refusal and anchors as "
         "invariants; the real Epoch class is then driven over every civil day of the same windows (month as "
-        "number/short/long name, read-back, day+1, day 0) and TLC validates each recorded event against the chain.",
+        "number/short/long name, read-back, day+1, day 0) and TLC validates each recorded event against the chain. Apalache additionally proves an inductive invariant of the same chain (civil date, day-of-year formula, closed-form day number, weekday; thorough: also Meeus 7.1 as coded) for every year >= -4712.",
    note="Trusted: TLC, the ~60-line calendar successor relation in spec/Calendar.tla (cross-checked against a "
         "closed-form Jan-1 day number and an independent Gregorian weekday formula), JSON transport of ints.",
-   technique="TLA+ calendar chain model-checked by TLC + trace validation of Epoch calls per civil day",
+   technique="TLA+ calendar chain model-checked by TLC (+ inductive invariant by Apalache) + trace validation of Epoch calls per civil day",
    ref="5/C01"),
  "C16": dict(
    text="Same chain as C01 carrying weekday and day-of-year counters (model-checked: dow=(jdn+1) mod 7, equals the "
@@ -192,11 +192,11 @@ CLAIMS = {
    text="ApiHeap.tla models the library as caller-owned objects + module-level state + a memo of call outcomes; the frame "
         "conditions, determinism across arbitrary call histories, totality on the documented domain and clean rejection are "
         "invariants/action properties that TLC evaluates at every step of traces recorded from ~300 introspected callables "
-        "(well-typed, ill-typed, repeated in shuffled order); ObjHeap.tla is model-checked over all operation sequences of depth "
+        "(well-typed incl. documented-domain edges, ill-typed, repeated in shuffled order; neighbour histories re-run in reverse order in a fresh interpreter; the repository's own test suite and doctests executed under a tracing pytest plugin); ObjHeap.tla is model-checked over all operation sequences of depth "
         "2 and its TLC-generated behaviours (plus -simulate ones) are replayed on real Angle/Epoch objects.",
-   note="Trusted: TLC; the harness's structural digest (sha1 of a canonical deep rendering, 30 bits) as the observation of object "
+   note="Trusted: TLC; the harness's structural digest (sha1 of a canonical deep rendering, 30 bits; call signatures 60 bits) as the observation of object "
         "and module state; the curated argument-domain table.",
-   technique="TLA+ heap/memo model; TLC-generated behaviours replayed; trace validation of the whole API catalogue",
+   technique="TLA+ heap/memo model; TLC-generated behaviours replayed; trace validation of the whole API catalogue, of neighbour histories and of the repository's own test executions",
    ref="5/C20"),
 }
 
@@ -232,10 +232,10 @@ def main():
                       serves_properties=sorted(CLAIMS),
                       kind_free_text="explicit TLA+ specification (spec/*.tla) model-checked by TLC 1.8; "
                                      "conformance by TLC trace validation of events recorded from the real "
-                                     "library (harness/drv_*.py) and by replaying TLC-generated behaviours")],
+                                     "library (harness/drv_*.py) and by replaying TLC-generated behaviours; Apalache 0.58 proves inductive invariants of the integer-only calendar specifications (C01, C16) for unbounded years")],
         checks=checks,
         not_applicable=na,
-        notes="See DESIGN.md. Exit codes: 0 held, 1 violation (VIOLATION lines), 2 machinery failure.")
+        notes="See DESIGN.md (status header, sections 7, 10, 11, 12) and ASBUILT.md (generated per-check description). Exit codes: 0 held, 1 violation (VIOLATION lines), 2 machinery failure. ./check GROWTH runs the growth suite outside the listed properties (not a registered check). tools/matrix.py re-runs the seeded changes under seeded/ against the checks in scratch worktrees.")
     with open(os.path.join(V, "MANIFEST.json"), "w") as f:
         json.dump(m, f, indent=1)
         f.write("\n")
